@@ -34,6 +34,7 @@ def hash_key(a, b):
 
 def run(ctx):
     env = kit.Env(ctx)
+    kit.aliasing_probe(ctx, env.m, "C12")   # before anything else: what follows runs in a process whose program aliases and updates in place
     m, mdl, pools, rng, orc = env.m, env.mdl, env.pools, ctx.rng, env.orc
     Q, Measurement, approximately = m.Quantity, m.Measurement, m.approximately
     CNF = env.conv.ConversionNotFound
